@@ -1,7 +1,7 @@
 /-
 Oracle/C18.lean — line-protocol oracle for property C18 (core only; compiled to `oracle_c18`).
 
-  auth <path> <sasl> <env items> => <journal>;<result>;<closed>
+  auth <path> <sasl> <env items> <expect ok|any> => <journal>;<result>;<closed>
       model  = Model/Auth.lean replaying the recorded environment events (trace acceptance: `reject@i`
                names the first event the model cannot take), printed in the implementation's format
       holds  = Spec.Sasl.orderHolds on the IMPLEMENTATION's journal  ∧  (a failure event in the script ⇒
@@ -21,12 +21,18 @@ import KafkaVerif.Spec.SaslPlain
 namespace KV.OracleC18
 open KV KV.Auth KV.Spec.Sasl
 
+/-- `none` or `min_max` -/
+def parseRange (s : String) : Option (Option (Int × Int)) :=
+  if s == "none" then some none else
+  match s.splitOn "_" with
+  | [a, b] => do let a ← a.toInt?; let b ← b.toInt?; pure (some (a, b))
+  | _ => none
+
 def parseEnv (s : String) : Option Env :=
   match s.splitOn ":" with
-  | ["V", err, "none"] => do let e ← err.toInt?; pure (.versions e none)
-  | ["V", err, mn, mx] => do
-    let e ← err.toInt?; let a ← mn.toInt?; let b ← mx.toInt?
-    pure (.versions e (some (a, b)))
+  | ["V", err, hs, au] => do
+    let e ← err.toInt?; let h ← parseRange hs; let a ← parseRange au
+    pure (.versions e h a)
   | ["R", err, d, f] => do
     let e ← err.toInt?; let b ← ofHex d
     pure (.reply e b (f == "1"))
@@ -44,7 +50,7 @@ def hexOrDash (b : Bytes) : String := if b.isEmpty then "-" else toHex b
 def showItem : Item → String
   | .wrote .apiVersions => "av"
   | .wrote (.saslHandshake v) => s!"hs:{v}"
-  | .wrote (.saslAuthenticate t) => s!"auth:{hexOrDash t}"
+  | .wrote (.saslAuthenticate v t) => s!"auth:{v}:{hexOrDash t}"
   | .wrote (.rawToken t) => s!"raw:{hexOrDash t}"
   | .wrote (.other k) => s!"other:{k}"
   | .verdict => "A"
@@ -64,7 +70,7 @@ def parseSeen (s : String) : Option Seen :=
   match s.splitOn ":" with
   | ["av"] => some .apiVersions
   | ["hs", _] => some .saslHandshake
-  | ["auth", _] => some .saslAuthenticate
+  | ["auth", _, _] => some .saslAuthenticate
   | ["raw", _] => some .rawToken
   | ["other", k] => k.toNat?.map .other
   | ["A"] => some .verdict
@@ -72,7 +78,7 @@ def parseSeen (s : String) : Option Seen :=
 
 /-- failure events, as Spec sees them (independent of Props) -/
 def isFailure : Env → Bool
-  | .versions err _ => err != 0
+  | .versions err _ _ => err != 0
   | .reply err _ _ => err != 0
   | .eof => true
   | .ioerr => true
@@ -89,7 +95,7 @@ def step (line : String) : String :=
   match line.splitOn " => " with
   | [req, impl] =>
     match words req with
-    | ["auth", path, sasl, envs] =>
+    | ["auth", path, sasl, envs, expect] =>
       let addrOk := !(path.endsWith "!addr")
       let path := if addrOk then path else (path.dropEnd 5).toString
       let p? : Option Path := if path == "dialer" then some .dialer else if path == "transport" then some .transport else none
@@ -112,7 +118,9 @@ def step (line : String) : String :=
               -- "dialling fails with an error and the connection is closed", whatever made it fail
               (!result.startsWith "err" || closed == "1") &&
               (result != "ok" || (!failed && closed == "0")) &&
-              (result == "ok" || result.startsWith "err")
+              (result == "ok" || result.startsWith "err") &&
+              -- right credentials and no failure placed anywhere ⇒ the exchange completes
+              (expect != "ok" || result == "ok")
             | none => false
           | _ => false
         answer model holds
